@@ -20,7 +20,8 @@ EXPLANATION = ("C11: 7 shapes x {1,2} evaluation points; obligations: flat segme
                "balance points, monotonicity, Lipschitz continuity with the fitted slopes (implies continuity), "
                "load sign/exclusivity/additivity.")
 BOUNDS = {"quick": dict(evaluation_points="1 and 2 symbolic temperatures per sub-model", reals="unbounded"),
-          "thorough": dict(evaluation_points="1, 2 and 3 symbolic temperatures per sub-model", reals="unbounded")}
+          "thorough": dict(evaluation_points="1 and 2 symbolic temperatures per sub-model; the full smoothed pair run additionally without the get_smooth_coeffs contract", reals="unbounded")}
+CASE_TIMEOUT = {"thorough": 5400}
 STUBS = ["ModelCoefficients/DailySubmodelParameters built with model_construct (pydantic-core validation bypassed)"]
 MODELS_USED = ["symnp.clip (ITE)", "EXP uninterpreted + instantiated axioms (positivity, monotone, convexity/MVT, e^a>=1+a)"]
 ASSUMPTIONS = ["floats modelled as reals; witnesses replayed in float64 on the jitted kernels",
@@ -44,6 +45,8 @@ def cases(tier, seed):
     for s in SHAPES:
         out.append(f"{s}/single")
         out.append(f"{s}/pair")
+    if tier == "thorough":
+        out.append("hdd_tidd_cdd_smooth/pairexact")  # the real get_smooth_coeffs inside the pair run (no contract)
     return out
 
 
@@ -248,10 +251,13 @@ def run_case(case: Case, name: str):
         return run_lemma(case)
     if mode == "rounding":
         return run_rounding(case)
+    exact = mode == "pairexact"
+    if exact:
+        mode = "pair"
     nT = 1 if mode == "single" else 2
     V = R.input_vars(shape, nT)
     case.inputs = list(V.values())
-    contract = shape == "hdd_tidd_cdd_smooth" and mode == "pair"
+    contract = shape == "hdd_tidd_cdd_smooth" and mode == "pair" and not exact
     K = (Z("kh_eff"), Z("kc_eff")) if contract else None
     refine = []
     if contract:
